@@ -189,6 +189,9 @@ func runBoth(ctx *vrun.Ctx, mining bool) error {
 	}
 	var missing []string
 	for _, a := range allActions {
+		if mining && (a == "RemoveTx" || a == "RemoveDoubleSpends" || a == "RemoveOrphanTx" || a == "ProcessOrphansOf") {
+			continue // the template universes are driven by submissions and blocks only
+		}
 		if !seen[a] {
 			missing = append(missing, a)
 		}
